@@ -252,6 +252,9 @@ func (vm *vm) run() error {
 
 		case opDEFBLOCK:
 			// ( -- )
+			if vm.blockTos == blockStackSize {
+				return vm.runtimeError("too many nested blocks")
+			}
 			blk := Block{
 				Type:   readConst().(string),
 				Name:   readConst().(string),
